@@ -1,6 +1,743 @@
-//! C02: not implemented yet.
-use crate::util::Args;
-pub fn main(_a: &Args) {
-    eprintln!("c02: not implemented");
-    std::process::exit(2);
+//! C02: glyph values built through the public API, encoded with every kind of WriteOptions,
+//! read back with Glyph::parse_raw.  Output per case: the glyph and the observed library
+//! formatter tables (packed for Coq), the written bytes (for the independent XML reader of the
+//! driver), the outcome of reading them back, and the property oracle parse(encode g) ~ g.
+use crate::util::*;
+#[path = "glif_common.rs"]
+mod common;
+use common::*;
+use norad::{
+    AffineTransform, Anchor, Codepoints, Color, Component, Contour, ContourPoint, Glyph, Guideline, Identifier, Image, Line,
+    Name, Plist, PointType, QuoteChar, WriteOptions,
+};
+use std::collections::BTreeMap;
+
+const FLOATS: [f64; 30] = [
+    0.0, 1.0, -1.0, 2.0, 2.5, -2.5, 500.0, 0.1, 1000.0, 45.0, 360.0, 1e-7, 123456789.125, 1e21, 1e300, -0.0,
+    0.30000000000000004, 1.0000000000000002, 0.9999999999999999, 1.0000000000000004, 5e-324, 2.2250738585072014e-308,
+    1.5e-310, 1e-320, 4294967296.5, 0.5, 3.0, 100.0, 1.7976931348623157e308, 7.0,
+];
+const CHANNELS: [f64; 14] = [0.0, 1.0, 0.5, 0.25, 0.1, 0.123456789, 0.9996, 0.0004, 0.0005, 0.9995, 1e-10, 0.3333333333333333, 0.75, 0.0015];
+const NAMES: [&str; 9] = ["a", "A.alt", "a b", "\u{e9}", "\u{1d538}x", "<&>\"'", " lead", "trail ", "_"];
+const STRS: [&str; 14] = [
+    "v", "a b", "x&y<z>", " lead", "trail ", "", "\u{e9}\u{1d538}", "\"q\"'", "l1\nl2", "a\n", "\n\n", "tab\tx", "cr\rx", "]]>",
+];
+const KEYS: [&str; 8] = ["k1", "k2", "com.x.y", "a key", "\u{e9}", "<&>", "z", "multi\nline"];
+const NOTES: [&str; 9] = ["hello", "a<b & c>d", "line1\n  line2", "\u{e9}", " lead", "trail ", "", "  ", "x"];
+const TYPES: [PointType; 5] = [PointType::Move, PointType::Line, PointType::OffCurve, PointType::Curve, PointType::QCurve];
+
+fn seq_legal(pts: &[(u8, bool)]) -> bool {
+    let n = pts.len();
+    let closed = n == 0 || pts[0].0 != 0;
+    let trail = |l: &[(u8, bool)]| l.iter().rev().take_while(|p| p.0 == 2).count();
+    for i in 0..n {
+        let (t, sm) = pts[i];
+        let lin = trail(&pts[..i]);
+        let run = if closed && lin == i { lin + trail(pts) } else { lin };
+        let ok = match t {
+            0 => i == 0,
+            2 => !sm,
+            1 => run == 0,
+            3 => run <= 2,
+            _ => true,
+        };
+        if !ok {
+            return false;
+        }
+    }
+    closed || trail(pts) == 0
+}
+fn gen_seq(rng: &mut Rng, len: usize) -> Vec<(u8, bool)> {
+    for _ in 0..200 {
+        let open = rng.chance(1, 3);
+        let v: Vec<(u8, bool)> = (0..len)
+            .map(|i| {
+                let t = if i == 0 && open { 0 } else { *rng.pick(&[1u8, 1, 2, 2, 2, 3, 3, 4]) };
+                (t, t != 2 && rng.chance(1, 3))
+            })
+            .collect();
+        if seq_legal(&v) {
+            return v;
+        }
+    }
+    vec![(1, false); len]
+}
+
+struct G<'a> {
+    rng: &'a mut Rng,
+    next_id: usize,
+    /// probability (in 1/64) of picking from the "hard" end of a value table
+    hard: u64,
+}
+impl<'a> G<'a> {
+    fn f(&mut self) -> f64 {
+        if self.rng.below(64) < self.hard {
+            *self.rng.pick(&FLOATS)
+        } else {
+            *self.rng.pick(&FLOATS[..14])
+        }
+    }
+    fn name(&mut self) -> Name {
+        Name::new(*self.rng.pick(&NAMES)).unwrap()
+    }
+    fn oname(&mut self, p: (u64, u64)) -> Option<Name> {
+        if self.rng.chance(p.0, p.1) {
+            Some(self.name())
+        } else {
+            None
+        }
+    }
+    fn id(&mut self) -> Identifier {
+        self.next_id += 1;
+        let n = self.next_id;
+        let s = match self.rng.below(6) {
+            0 => format!("id{}", n),
+            1 => format!("p q{}", n),
+            2 => format!("<&\">'{}", n),
+            3 => format!("{}{}", "a".repeat(100 - n.to_string().len()), n),
+            _ => format!("i{}", n),
+        };
+        Identifier::new(&s).unwrap()
+    }
+    fn oid(&mut self, p: (u64, u64)) -> Option<Identifier> {
+        if self.rng.chance(p.0, p.1) {
+            Some(self.id())
+        } else {
+            None
+        }
+    }
+    fn color(&mut self) -> Option<Color> {
+        if self.rng.chance(1, 3) {
+            let c: Vec<f64> = (0..4).map(|_| *self.rng.pick(&CHANNELS)).collect();
+            Some(Color::new(c[0], c[1], c[2], c[3]).unwrap())
+        } else {
+            None
+        }
+    }
+    fn transform(&mut self) -> AffineTransform {
+        let mut t = AffineTransform::default();
+        if self.rng.chance(1, 3) {
+            t.x_scale = self.f();
+        }
+        if self.rng.chance(1, 4) {
+            t.xy_scale = self.f();
+        }
+        if self.rng.chance(1, 4) {
+            t.yx_scale = self.f();
+        }
+        if self.rng.chance(1, 3) {
+            t.y_scale = self.f();
+        }
+        if self.rng.chance(1, 3) {
+            t.x_offset = self.f();
+        }
+        if self.rng.chance(1, 3) {
+            t.y_offset = self.f();
+        }
+        t
+    }
+    fn pv(&mut self, depth: u32) -> plist::Value {
+        let k = if depth >= 3 { self.rng.below(7) } else { self.rng.below(10) };
+        match k {
+            0 | 1 => {
+                let hard = self.rng.below(64) < self.hard;
+                plist::Value::String(if hard { *self.rng.pick(&STRS) } else { *self.rng.pick(&STRS[..8]) }.to_string())
+            }
+            2 => plist::Value::Integer(match self.rng.below(6) {
+                0 => 1i64.into(),
+                1 => (-5i64).into(),
+                2 => 70000i64.into(),
+                3 => i64::MIN.into(),
+                4 => u64::MAX.into(),
+                _ => 0i64.into(),
+            }),
+            3 => plist::Value::Real(self.f()),
+            4 => plist::Value::Boolean(self.rng.chance(1, 2)),
+            5 => {
+                let n = *self.rng.pick(&[0usize, 1, 2, 3, 5, 50, 51, 52, 103]);
+                plist::Value::Data((0..n).map(|_| self.rng.below(256) as u8).collect())
+            }
+            6 => plist::Value::Date(plist::Date::from_xml_format(*self.rng.pick(&["2020-01-31T10:00:00Z", "1999-12-31T23:59:59Z", "2001-01-01T00:00:00Z"])).unwrap()),
+            7 => plist::Value::Array((0..self.rng.below(3)).map(|_| self.pv(depth + 1)).collect()),
+            _ => plist::Value::Dictionary(self.dict(depth + 1)),
+        }
+    }
+    fn dict(&mut self, depth: u32) -> Plist {
+        let mut d = Plist::new();
+        let n = self.rng.below(4);
+        for _ in 0..n {
+            let hard = self.rng.below(64) < self.hard;
+            let k = if hard { *self.rng.pick(&KEYS) } else { *self.rng.pick(&KEYS[..7]) };
+            let v = self.pv(depth);
+            d.insert(k.to_string(), v);
+        }
+        d
+    }
+    fn olib(&mut self) -> Option<Plist> {
+        if self.rng.chance(1, 4) {
+            Some(self.dict(1))
+        } else {
+            None
+        }
+    }
+    fn glyph(&mut self) -> Glyph {
+        let mut g = Glyph::new(*self.rng.pick(&NAMES));
+        if self.rng.chance(2, 3) {
+            g.width = self.f();
+        }
+        if self.rng.chance(1, 3) {
+            g.height = self.f();
+        }
+        let ncp = self.rng.below(4);
+        g.codepoints = Codepoints::new((0..ncp).map(|_| *self.rng.pick(&['A', 'a', '\u{1F600}', '\u{10FFFF}', '\0', '\u{E9}', 'B'])));
+        if self.rng.chance(1, 2) {
+            let hard = self.rng.below(64) < self.hard;
+            g.note = Some(if hard { *self.rng.pick(&NOTES) } else { *self.rng.pick(&NOTES[..4]) }.to_string());
+        }
+        if self.rng.chance(1, 3) {
+            let f = *self.rng.pick(&["a.png", "img 1.png", "\u{e9}.png", "<&>.png"]);
+            g.image = Some(Image::new(f.into(), self.color(), self.transform()).unwrap());
+        }
+        for _ in 0..self.rng.below(3) {
+            let line = match self.rng.below(3) {
+                0 => Line::Vertical(self.f()),
+                1 => Line::Horizontal(self.f()),
+                _ => Line::Angle { x: self.f(), y: self.f(), degrees: *self.rng.pick(&[0.0, 360.0, 45.0, 90.5, 359.99999999999994, -0.0]) },
+            };
+            let mut x = Guideline::new(line, self.oname((1, 3)), self.color(), self.oid((1, 2)));
+            if let Some(l) = self.olib() {
+                if x.identifier().is_none() {
+                    x.replace_identifier(self.id());
+                }
+                x.replace_lib(l);
+            }
+            g.guidelines.push(x);
+        }
+        for _ in 0..self.rng.below(3) {
+            let mut a = Anchor::new(self.f(), self.f(), self.oname((1, 2)), self.color(), self.oid((1, 2)));
+            if let Some(l) = self.olib() {
+                if a.identifier().is_none() {
+                    a.replace_identifier(self.id());
+                }
+                a.replace_lib(l);
+            }
+            g.anchors.push(a);
+        }
+        for _ in 0..self.rng.below(3) {
+            let mut c = Component::new(self.name(), self.transform(), self.oid((1, 2)));
+            if let Some(l) = self.olib() {
+                if c.identifier().is_none() {
+                    c.replace_identifier(self.id());
+                }
+                c.replace_lib(l);
+            }
+            g.components.push(c);
+        }
+        for _ in 0..self.rng.below(4) {
+            let len = if self.rng.below(64) < self.hard / 4 { 0 } else { self.rng.range(1, 6) as usize };
+            let seq = gen_seq(self.rng, len);
+            let mut pts = Vec::new();
+            for (t, sm) in seq {
+                let mut p = ContourPoint::new(self.f(), self.f(), TYPES[t as usize].clone(), sm, self.oname((1, 5)), self.oid((1, 4)));
+                if let Some(l) = self.olib() {
+                    if p.identifier().is_none() {
+                        p.replace_identifier(self.id());
+                    }
+                    p.replace_lib(l);
+                }
+                pts.push(p);
+            }
+            let mut c = Contour::new(pts, self.oid((1, 3)));
+            if let Some(l) = self.olib() {
+                if c.identifier().is_none() {
+                    c.replace_identifier(self.id());
+                }
+                c.replace_lib(l);
+            }
+            g.contours.push(c);
+        }
+        if self.rng.chance(2, 3) {
+            g.lib = self.dict(0);
+        }
+        g
+    }
+}
+
+/// make the glyph break one validity rule (for the model/implementation comparison only)
+fn invalidate(g: &mut Glyph, rng: &mut Rng) -> &'static str {
+    match rng.below(7) {
+        0 => {
+            g.width = f64::INFINITY;
+            "infinite width"
+        }
+        1 => {
+            g.height = f64::NAN;
+            g.width = 5.0;
+            "NaN height"
+        }
+        2 => {
+            g.contours.push(Contour::new(
+                vec![
+                    ContourPoint::new(0.0, 0.0, PointType::Line, false, None, None),
+                    ContourPoint::new(1.0, 0.0, PointType::Move, false, None, None),
+                ],
+                None,
+            ));
+            "illegal contour"
+        }
+        3 => {
+            let id = Identifier::new("dup").unwrap();
+            g.anchors.push(Anchor::new(0.0, 0.0, None, None, Some(id.clone())));
+            g.guidelines.push(Guideline::new(Line::Vertical(1.0), None, None, Some(id)));
+            "duplicate identifier"
+        }
+        4 => {
+            g.lib.insert("public.objectLibs".into(), plist::Value::String("user".into()));
+            "user public.objectLibs"
+        }
+        5 => {
+            g.guidelines.push(Guideline::new(Line::Angle { x: 0.0, y: 0.0, degrees: 400.0 }, None, None, None));
+            "angle out of range"
+        }
+        _ => {
+            g.contours.push(Contour::new(vec![ContourPoint::new(0.0, 0.0, PointType::OffCurve, true, None, None)], None));
+            "smooth off-curve"
+        }
+    }
+}
+
+// ---------------------------------------------------------------- formatter tables
+struct Tables {
+    floats: BTreeMap<u64, f64>,
+    chans: BTreeMap<u64, f64>,
+    ints: Vec<plist::Integer>,
+    cps: Vec<char>,
+}
+fn collect_pv(v: &plist::Value, t: &mut Tables) {
+    match v {
+        plist::Value::Real(r) => {
+            t.floats.insert(r.to_bits(), *r);
+        }
+        plist::Value::Integer(i) => t.ints.push(*i),
+        plist::Value::Array(a) => a.iter().for_each(|x| collect_pv(x, t)),
+        plist::Value::Dictionary(d) => d.values().for_each(|x| collect_pv(x, t)),
+        _ => {}
+    }
+}
+fn collect(g: &Glyph) -> Tables {
+    let mut t = Tables { floats: BTreeMap::new(), chans: BTreeMap::new(), ints: vec![], cps: vec![] };
+    let mut f = |x: f64, t: &mut Tables| {
+        t.floats.insert(x.to_bits(), x);
+    };
+    let tr = |a: &AffineTransform| [a.x_scale, a.xy_scale, a.yx_scale, a.y_scale, a.x_offset, a.y_offset];
+    let col = |c: &Option<Color>, t: &mut Tables| {
+        if let Some(c) = c {
+            let (r, g, b, a) = c.channels();
+            for x in [r, g, b, a] {
+                t.chans.insert(x.to_bits(), x);
+            }
+        }
+    };
+    f(g.width, &mut t);
+    f(g.height, &mut t);
+    t.cps = g.codepoints.iter().collect();
+    if let Some(i) = &g.image {
+        tr(&i.transform).iter().for_each(|x| f(*x, &mut t));
+        col(&i.color, &mut t);
+    }
+    for x in &g.guidelines {
+        match x.line {
+            Line::Vertical(a) | Line::Horizontal(a) => f(a, &mut t),
+            Line::Angle { x, y, degrees } => {
+                f(x, &mut t);
+                f(y, &mut t);
+                f(degrees, &mut t);
+            }
+        }
+        col(&x.color, &mut t);
+        if let Some(l) = x.lib() {
+            l.values().for_each(|v| collect_pv(v, &mut t));
+        }
+    }
+    for a in &g.anchors {
+        f(a.x, &mut t);
+        f(a.y, &mut t);
+        col(&a.color, &mut t);
+        if let Some(l) = a.lib() {
+            l.values().for_each(|v| collect_pv(v, &mut t));
+        }
+    }
+    for c in &g.components {
+        tr(&c.transform).iter().for_each(|x| f(*x, &mut t));
+        if let Some(l) = c.lib() {
+            l.values().for_each(|v| collect_pv(v, &mut t));
+        }
+    }
+    for c in &g.contours {
+        if let Some(l) = c.lib() {
+            l.values().for_each(|v| collect_pv(v, &mut t));
+        }
+        for p in &c.points {
+            f(p.x, &mut t);
+            f(p.y, &mut t);
+            if let Some(l) = p.lib() {
+                l.values().for_each(|v| collect_pv(v, &mut t));
+            }
+        }
+    }
+    g.lib.values().for_each(|v| collect_pv(v, &mut t));
+    t
+}
+fn trim_chan(s: &str) -> String {
+    s.trim_end_matches('0').trim_end_matches('.').to_string()
+}
+fn tables_xt(t: &Tables) -> Xt {
+    let ff = Xt::L(t.floats.values().map(|x| Xt::L(vec![tm_fl(*x), Xt::s(&x.to_string())])).collect());
+    let ff3 = Xt::L(t.chans.values().map(|x| Xt::L(vec![tm_fl(*x), Xt::s(&format!("{:.3}", x))])).collect());
+    let fi = Xt::L(
+        t.ints
+            .iter()
+            .map(|i| {
+                let (neg, abs) = match i.as_signed() {
+                    Some(x) => (x < 0, x.unsigned_abs()),
+                    None => (false, i.as_unsigned().unwrap_or(0)),
+                };
+                Xt::L(vec![Xt::b(neg), Xt::N(abs), Xt::s(&i.to_string())])
+            })
+            .collect(),
+    );
+    let fh = Xt::L(t.cps.iter().map(|c| Xt::L(vec![Xt::N(*c as u64), Xt::s(&format!("{:04X}", *c as u32))])).collect());
+    // strings the reader will hand to f64::from_str: what the writer printed
+    let mut strs: Vec<String> = t.floats.values().map(|x| x.to_string()).collect();
+    strs.extend(t.chans.values().map(|x| trim_chan(&format!("{:.3}", x))));
+    strs.sort();
+    strs.dedup();
+    let pf: Vec<(String, Option<f64>)> = strs.into_iter().map(|s| { let r = s.parse::<f64>().ok(); (s, r) }).collect();
+    Xt::L(vec![ff, ff3, fi, fh, xt_pf_table(&pf)])
+}
+
+// ---------------------------------------------------------------- validity, classes, equivalence
+fn pv_has_newline(v: &plist::Value) -> bool {
+    match v {
+        plist::Value::String(s) => s.contains('\n'),
+        plist::Value::Array(a) => a.iter().any(pv_has_newline),
+        plist::Value::Dictionary(d) => dict_has_newline(d),
+        _ => false,
+    }
+}
+fn dict_has_newline(d: &Plist) -> bool {
+    d.iter().any(|(k, v)| k.contains('\n') || pv_has_newline(v))
+}
+fn all_libs(g: &Glyph) -> Vec<&Plist> {
+    let mut v = vec![&g.lib];
+    v.extend(g.anchors.iter().filter_map(|a| a.lib()));
+    v.extend(g.guidelines.iter().filter_map(|a| a.lib()));
+    v.extend(g.components.iter().filter_map(|a| a.lib()));
+    for c in &g.contours {
+        v.extend(c.lib());
+        v.extend(c.points.iter().filter_map(|p| p.lib()));
+    }
+    v
+}
+fn xml_ws(c: char) -> bool {
+    c == ' ' || c == '\t' || c == '\n' || c == '\r'
+}
+/// the known classes a (valid) glyph falls into for the given indentation
+fn classes(g: &Glyph, indent_count: usize) -> Vec<&'static str> {
+    let mut c = Vec::new();
+    if indent_count > 0 && all_libs(g).iter().any(|d| dict_has_newline(d)) {
+        c.push("F3");
+    }
+    if let Some(n) = &g.note {
+        if n.is_empty() || n.starts_with(xml_ws) || n.ends_with(xml_ws) {
+            c.push("F3");
+        }
+    }
+    if !(g.width.is_normal() || g.height.is_normal()) && (g.width != 0.0 || g.height != 0.0) {
+        c.push("advance-subnormal");
+    }
+    if g.contours.iter().any(|c| c.points.is_empty()) {
+        c.push("empty-contour");
+    }
+    c.dedup();
+    c
+}
+fn close(a: f64, b: f64) -> bool {
+    a == b || (a - b).abs() <= 1e-9 * a.abs().max(b.abs())
+}
+fn ocolor_close(a: &Option<Color>, b: &Option<Color>) -> bool {
+    match (a, b) {
+        (None, None) => true,
+        (Some(a), Some(b)) => {
+            let (a, b) = (a.channels(), b.channels());
+            [(a.0, b.0), (a.1, b.1), (a.2, b.2), (a.3, b.3)].iter().all(|(x, y)| (x - y).abs() <= 0.0005 + 1e-12)
+        }
+        _ => false,
+    }
+}
+fn tr_close(a: &AffineTransform, b: &AffineTransform) -> bool {
+    close(a.x_scale, b.x_scale)
+        && close(a.xy_scale, b.xy_scale)
+        && close(a.yx_scale, b.yx_scale)
+        && close(a.y_scale, b.y_scale)
+        && close(a.x_offset, b.x_offset)
+        && close(a.y_offset, b.y_offset)
+}
+fn pv_equiv(a: &plist::Value, b: &plist::Value) -> bool {
+    use plist::Value::*;
+    match (a, b) {
+        (Real(x), Real(y)) => close(*x, *y),
+        (Array(x), Array(y)) => x.len() == y.len() && x.iter().zip(y).all(|(p, q)| pv_equiv(p, q)),
+        (Dictionary(x), Dictionary(y)) => dict_equiv(x, y),
+        _ => a == b,
+    }
+}
+fn dict_equiv(a: &Plist, b: &Plist) -> bool {
+    a.len() == b.len() && a.iter().all(|(k, v)| b.get(k).map_or(false, |w| pv_equiv(v, w)))
+}
+fn olib_equiv(a: Option<&Plist>, b: Option<&Plist>) -> bool {
+    match (a, b) {
+        (None, None) => true,
+        (Some(a), Some(b)) => dict_equiv(a, b),
+        _ => false,
+    }
+}
+/// first field in which the re-read glyph differs from the written one (None = equivalent)
+fn differs(g: &Glyph, h: &Glyph) -> Option<String> {
+    if g.name() != h.name() {
+        return Some("name".into());
+    }
+    if !close(g.width, h.width) || !close(g.height, h.height) {
+        return Some("advance".into());
+    }
+    if g.codepoints.iter().collect::<Vec<_>>() != h.codepoints.iter().collect::<Vec<_>>() {
+        return Some("codepoints".into());
+    }
+    if g.note != h.note {
+        return Some("note".into());
+    }
+    match (&g.image, &h.image) {
+        (None, None) => {}
+        (Some(a), Some(b)) => {
+            if a.file_name() != b.file_name() || !ocolor_close(&a.color, &b.color) || !tr_close(&a.transform, &b.transform) {
+                return Some("image".into());
+            }
+        }
+        _ => return Some("image".into()),
+    }
+    if g.guidelines.len() != h.guidelines.len() {
+        return Some("guideline count".into());
+    }
+    for (a, b) in g.guidelines.iter().zip(&h.guidelines) {
+        let l = match (&a.line, &b.line) {
+            (Line::Vertical(x), Line::Vertical(y)) | (Line::Horizontal(x), Line::Horizontal(y)) => close(*x, *y),
+            (Line::Angle { x, y, degrees }, Line::Angle { x: x2, y: y2, degrees: d2 }) => close(*x, *x2) && close(*y, *y2) && close(*degrees, *d2),
+            _ => false,
+        };
+        if !l || a.name != b.name || !ocolor_close(&a.color, &b.color) || a.identifier() != b.identifier() {
+            return Some("guideline".into());
+        }
+        if !olib_equiv(a.lib(), b.lib()) {
+            return Some("guideline lib".into());
+        }
+    }
+    if g.anchors.len() != h.anchors.len() {
+        return Some("anchor count".into());
+    }
+    for (a, b) in g.anchors.iter().zip(&h.anchors) {
+        if !close(a.x, b.x) || !close(a.y, b.y) || a.name != b.name || !ocolor_close(&a.color, &b.color) || a.identifier() != b.identifier() {
+            return Some("anchor".into());
+        }
+        if !olib_equiv(a.lib(), b.lib()) {
+            return Some("anchor lib".into());
+        }
+    }
+    if g.components.len() != h.components.len() {
+        return Some("component count".into());
+    }
+    for (a, b) in g.components.iter().zip(&h.components) {
+        if a.base != b.base || !tr_close(&a.transform, &b.transform) || a.identifier() != b.identifier() {
+            return Some("component".into());
+        }
+        if !olib_equiv(a.lib(), b.lib()) {
+            return Some("component lib".into());
+        }
+    }
+    if g.contours.len() != h.contours.len() {
+        return Some("contour count".into());
+    }
+    for (a, b) in g.contours.iter().zip(&h.contours) {
+        if a.identifier() != b.identifier() || a.points.len() != b.points.len() {
+            return Some("contour".into());
+        }
+        if !olib_equiv(a.lib(), b.lib()) {
+            return Some("contour lib".into());
+        }
+        for (p, q) in a.points.iter().zip(&b.points) {
+            if !close(p.x, q.x) || !close(p.y, q.y) || p.typ != q.typ || p.smooth != q.smooth || p.name != q.name || p.identifier() != q.identifier() {
+                return Some("point".into());
+            }
+            if !olib_equiv(p.lib(), q.lib()) {
+                return Some("point lib".into());
+            }
+        }
+    }
+    if !dict_equiv(&g.lib, &h.lib) {
+        return Some("lib".into());
+    }
+    None
+}
+
+fn options(ch: u8, count: usize, single: bool) -> WriteOptions {
+    let o = WriteOptions::default().indent(ch, count);
+    if single {
+        o.quote_char(QuoteChar::Single)
+    } else {
+        o
+    }
+}
+
+fn hex(b: &[u8]) -> String {
+    let mut s = String::with_capacity(b.len() * 2);
+    for x in b {
+        s.push_str(&format!("{:02x}", x));
+    }
+    s
+}
+
+/// one case: glyph x options
+fn emit(out: &mut String, id: i64, g: &Glyph, valid: bool, why: &str, ch: u8, count: usize, single: bool, corpus: &str) {
+    let o = options(ch, count, single);
+    let enc = catch(|| g.encode_xml_with_options(&o));
+    let tables = collect(g);
+    let case = Xt::L(vec![
+        tm_glyph_o(g, false),
+        Xt::L(vec![Xt::N(ch as u64), Xt::N(count as u64), Xt::b(single)]),
+        tables_xt(&tables),
+    ]);
+    let cls = classes(g, count);
+    let (bytes, enc_status, reparse, verdict, field) = match enc {
+        Err(msg) => (vec![], format!("PANIC {}", msg), Xt::L(vec![]), "encode-panic".to_string(), String::new()),
+        Ok(Err(e)) => (vec![], format!("Err {:?}", e), Xt::L(vec![]), "encode-error".to_string(), String::new()),
+        Ok(Ok(b)) => {
+            let (tm, short, h) = parse_outcome(&b);
+            let (verdict, field) = match &h {
+                None => (format!("reparse {}", short), String::new()),
+                Some(h) => match differs(g, h) {
+                    None => ("equal".to_string(), String::new()),
+                    Some(f) => ("differs".to_string(), f),
+                },
+            };
+            (b, "Ok".to_string(), tm, verdict, field)
+        }
+    };
+    let decl_ok = if single { bytes.starts_with(b"<?xml version='1.0' encoding='UTF-8'?>\n") } else { bytes.starts_with(b"<?xml version=\"1.0\" encoding=\"UTF-8\"?>\n") };
+    let _ = std::fmt::Write::write_fmt(
+        out,
+        format_args!(
+            "{{\"id\":{},\"valid\":{},\"why\":{},\"opts\":[{},{},{}],\"classes\":{},\"enc\":{},\"verdict\":{},\"field\":{},\"decl_ok\":{},\"case\":{},\"reparse\":{},\"bytes\":{},\"corpus\":{}}}\n",
+            id,
+            valid,
+            json_str(why),
+            ch,
+            count,
+            single,
+            serde_json::to_string(&cls).unwrap(),
+            json_str(&enc_status),
+            json_str(&verdict),
+            json_str(&field),
+            decl_ok || bytes.is_empty(),
+            json_str(&case.packed()),
+            json_str(&reparse.packed()),
+            json_str(&hex(&bytes)),
+            json_str(corpus)
+        ),
+    );
+}
+
+/// corpus glyphs are stored as glif text and read with parse_raw (then written with the stated options)
+fn corpus_glyph(text: &str) -> Option<Glyph> {
+    Glyph::parse_raw(text.as_bytes()).ok()
+}
+
+pub fn main(a: &Args) {
+    if std::env::var("VERIF_DEBUG").is_ok() {
+        let _ = std::panic::take_hook();
+    }
+    if let Some(p) = &a.replay {
+        // replay file: {"glif": <glif text of the glyph>, "opts": [char, count, single]}
+        let v: serde_json::Value = serde_json::from_str(&std::fs::read_to_string(p).expect("replay file")).expect("json");
+        let g = corpus_glyph(v["glif"].as_str().unwrap_or("")).expect("replay glyph does not parse");
+        let o = &v["opts"];
+        let (ch, count, single) = (o[0].as_u64().unwrap_or(9) as u8, o[1].as_u64().unwrap_or(1) as usize, o[2].as_bool().unwrap_or(false));
+        let mut out = String::new();
+        emit(&mut out, 0, &g, true, "", ch, count, single, "");
+        let r: serde_json::Value = serde_json::from_str(out.trim()).unwrap();
+        println!("encode: {}  read back: {} {}", r["enc"], r["verdict"], r["field"]);
+        let bytes: Vec<u8> = (0..r["bytes"].as_str().unwrap().len() / 2).map(|i| u8::from_str_radix(&r["bytes"].as_str().unwrap()[2 * i..2 * i + 2], 16).unwrap()).collect();
+        println!("{}", String::from_utf8_lossy(&bytes));
+        return;
+    }
+    let mut rng = Rng::new(a.seed);
+    let mut out = String::new();
+    if let Some(i) = a.extra.iter().position(|x| x == "--corpus") {
+        let dir = std::path::PathBuf::from(&a.extra[i + 1]);
+        let mut names: Vec<_> = std::fs::read_dir(&dir).map(|d| d.filter_map(|e| e.ok()).map(|e| e.path()).collect()).unwrap_or_default();
+        names.sort();
+        let mut k = 0i64;
+        for p in names {
+            if p.extension().and_then(|x| x.to_str()) != Some("json") {
+                continue;
+            }
+            let v: serde_json::Value = serde_json::from_str(&std::fs::read_to_string(&p).expect("corpus file")).expect("corpus json");
+            let mut g = match corpus_glyph(v["glif"].as_str().unwrap_or("")) {
+                Some(g) => g,
+                None => continue,
+            };
+            // fields a glif cannot carry
+            if let Some(n) = v.get("note").and_then(|x| x.as_str()) {
+                g.note = Some(n.to_string());
+            }
+            if let Some(w) = v.get("width").and_then(|x| x.as_f64()) {
+                g.width = w;
+            }
+            if v.get("empty_contour").and_then(|x| x.as_bool()) == Some(true) {
+                g.contours.push(Contour::new(vec![], None));
+            }
+            let o = &v["opts"];
+            k -= 1;
+            emit(&mut out, k, &g, true, "", o[0].as_u64().unwrap_or(9) as u8, o[1].as_u64().unwrap_or(1) as usize, o[2].as_bool().unwrap_or(false), p.file_name().and_then(|x| x.to_str()).unwrap_or(""));
+        }
+        write_file(&a.out.join("cases_corpus.jsonl"), &out);
+        out.clear();
+    }
+    let n = if a.thorough() { 200_000 } else { 6_000 };
+    let per_file = 500;
+    let mut file_no = 0;
+    let mut in_file = 0;
+    let mut i = 0i64;
+    while (i as u64) < n {
+        let mut r2 = rng.fork();
+        let hard = *r2.pick(&[0u64, 4, 4, 16, 40]);
+        let mut gen = G { rng: &mut r2, next_id: 0, hard };
+        let mut g = gen.glyph();
+        let (valid, why) = if (i / 2) % 12 == 11 { (false, invalidate(&mut g, gen.rng)) } else { (true, "") };
+        // two option sets per glyph: the result must not depend on them
+        let o1 = (*gen.rng.pick(&[b'\t', b' ']), *gen.rng.pick(&[0usize, 1, 1, 2, 4, 8]), gen.rng.chance(1, 3));
+        let o2 = (*gen.rng.pick(&[b'\t', b' ']), *gen.rng.pick(&[0usize, 1, 2, 3]), gen.rng.chance(1, 2));
+        for o in [o1, o2] {
+            emit(&mut out, i, &g, valid, why, o.0, o.1, o.2, "");
+            i += 1;
+            in_file += 1;
+        }
+        if in_file >= per_file {
+            write_file(&a.out.join(format!("cases_{}.jsonl", file_no)), &out);
+            out.clear();
+            file_no += 1;
+            in_file = 0;
+        }
+    }
+    if in_file > 0 {
+        write_file(&a.out.join(format!("cases_{}.jsonl", file_no)), &out);
+    }
 }
